@@ -40,7 +40,8 @@ def run(ctx):
     ctx.rule("C19.fallback", "unknown strings are stored verbatim: From yields _Custom(PrivOwnedStr(input)) and AsRef returns that payload")
     ctx.rule("C19.prefix", "wildcard variants: From keeps the remainder after the prefix, AsRef writes the same prefix followed by the payload")
     ctx.rule("C19.serde", "Serialize / Display / Debug use the string form (as_ref / to_cow_str); Deserialize goes through From")
-    ctx.rule("C19.order", "ordering agrees with the string form: Ord/PartialOrd are either absent or compare as_ref(); a derived structural ordering is reported")
+    ctx.rule("C19.order", "equality and ordering agree with the string form: Ord/PartialOrd are either absent or compare as_ref(); a derived structural ordering is reported; "
+                          "a non-derived PartialEq compares as_ref() of both sides with str's own equality")
     ctx.rule("C19.spellings", "wire spellings equal the frozen reference table (changing or dropping a spelling is a behaviour change; new ones are allowed)")
     n_done, n_hand = 0, 0
     for e, d in sorted(enums.items()):
@@ -143,6 +144,22 @@ def run(ctx):
                                not re.search(r"^<str as core::cmp::(Ord|PartialOrd)>::(cmp|partial_cmp)$", c))
                 ctx.check(bool(cs & asref_names) and not other, "C19.order", f"C19.order:{short}:{tname}", w.where(fn),
                           bad_msg=f"ordering does not compare the string form as it is: {[c.rsplit('::', 2)[-2:] for c in other][:4] or sorted(cs)[:4]}")
+        # equality: derived structural equality agrees with the string form (the tables are a bijection, _Custom never holds a known spelling);
+        # a hand-written / PartialEqAsRefStr equality must compare the two string forms exactly
+        for tr in ("core::cmp::PartialEq>::eq", "core::cmp::PartialEq>::ne"):
+            fn = impl_fn(w, e, tr)
+            if fn is None:
+                continue
+            cs = set(calls_of(fn))
+            if (fn.get("impl") or {}).get("derived") and not (cs & asref_names):
+                continue        # the built-in structural derive (proc-macro derives carry #[automatically_derived] too, but go through as_ref)
+            other = sorted(c for c in cs - asref_names if not re.search(r"impl core::cmp::PartialEq(<&B>)? for (str|&A)>::(eq|ne)$", c) and
+                           not re.search(r"^<str as core::cmp::PartialEq>::(eq|ne)$", c) and
+                           not re.search(r"^<" + re.escape(e) + r" as core::cmp::PartialEq>::(eq|ne)$", c))
+            ctx.check(bool(cs & asref_names or any(re.search(r"^<" + re.escape(e) + r" as core::cmp::PartialEq>::", c) for c in cs)) and not other,
+                      "C19.order", f"C19.order:{short}:{tr.rsplit('::', 1)[-1]}", w.where(fn),
+                      bad_msg=f"equality does not compare the two string forms as they are: {[c.rsplit('::', 2)[-2:] for c in other][:4] or sorted(cs)[:4]} "
+                              f"(two values with different string forms can compare equal, or Eq and Ord/Hash/serialization disagree)")
         if structural:
             ctx.violation("C19.order", f"C19.order:{short}:derived-structural", w.where(structural[0][1]),
                           f"{e} derives a structural {'/'.join(t for t, _ in structural)} (variant declaration order, _Custom last): ordering does not agree "
